@@ -12,7 +12,18 @@ All statements are about the functions of `FeatModel/Model/LA/Filter.lean` (and 
 executes against the real FEAT code.  Vectors are pod arrays of any length, index lists are arbitrary (empty, all,
 duplicates: the statements use the *last writer* of an index, which for pairwise different indices is the entry
 itself), no bound on any size.  "Bit-exact" clauses are equalities; the "up to rounding" clauses are equalities
-over a field.  `none` = the real code aborts (size mismatch), so every theorem starts from a successful run. -/
+over a field.  `none` = the real code aborts (size mismatch), so every theorem starts from a successful run.
+
+**What is modelled as unbounded.**  `Index` / `IT_` (64-bit in the harness; 32-bit index types are not instantiated)
+are `Nat`; vector sizes, numbers of filter entries, row lengths and sequence lengths have no bound; the
+`SparseVector(Blocked)` storage of the unit / slip filters (arrays grown in steps of `min(size, 1000)` slots, copied
+on reallocation, insertion-sorted with `numeric_limits<IT_>::max()` as duplicate marker) is the abstract entry list
+`normalize adds`; scalars are exact rationals / field elements (no rounding, `Math::eps` only in the constructors'
+volume tests).  None of the theorems can therefore see narrowing, allocation steps, fixed buffers or loop remainders of
+the C++.  What ties them is the correspondence stream `boundary-sizes` of `checks/props/c06.py`: sizes, entry counts
+(unsorted, with repeated indices), row lengths and sequence lengths just below / at / above 127|128, 255|256, 1000
+(the allocation step), 2000 and - thorough - 32768 and 65536, with the non-trivial content at the high end, run through
+the real code and this model and judged by the independent oracle. -/
 open FeatModel.LA.Filter
 
 /-! ## unit filter on vectors -/
